@@ -200,7 +200,9 @@ T = {
         "contract-based deductive verification of the Flask handlers as forwarders, of serve / response, of the registration gate and of the "
         "RemoteStore endpoint mapping (own VC generator, ghost call log); Flask test-client comparison as labelled bounded stand-in",
         "Proved on the handler bodies: each store / cache endpoint calls exactly the one operation its route names on the process store "
-        "(cache) with the key unchanged, reports what it answered in the field the client reads and status ERROR exactly when it failed; serve "
+        "(cache) with the key unchanged, reports what it answered in the field the client reads and status ERROR exactly when it failed; GET /api/store/data answers with exactly "
+        "the bytes the store holds under the key and the stored media type, POST stores exactly the request body under the key together with the "
+        "metadata already held for it; serve "
         "evaluates exactly the routed query text, once, passes every request argument on, and answers with response(state): body == "
         "encode_state_data(state.get(), state.extension), Content-Type == the encoder's media type, never a normal answer for an error state; "
         "the remote-registration gate is the module flag; every RemoteStore operation issues exactly the request of the matching endpoint. "
